@@ -21,10 +21,14 @@ CONSTANTS Names,        \* topic names that may exist in the cluster, e.g. {"ta"
           DevKeepBrokers,    \* deviation: the cluster's broker list is passed through
           DevIdFilterAll,    \* deviation: a by-id request is answered with all topics
           DevDropErrTopics,  \* deviation: topics carrying an error are omitted
+          DevDupNameLosesSlot,  \* deviation: a name repeated in a by-name request is found only in its last slot; earlier
+                             \*            slots are answered UNKNOWN_TOPIC_OR_PARTITION although the topic exists
+          DevFlightKeyIgnoresIds,  \* deviation: overlapping metadata lookups are shared through a singleflight keyed by the
+                             \*            requested NAMES only, so all by-id requests share one key
           DevStaleIdCache    \* deviation: a by-id request whose ids are all in the (possibly stale) id -> name cache is
                              \*            answered by a by-NAME lookup of the cached names
-VARIABLES phase, snap, input, hist
-vars == <<phase, snap, input, hist>>
+VARIABLES phase, snap, input, hist, run
+vars == <<phase, snap, input, hist, run>>
 
 Proxy == [node |-> 0, host |-> "proxy.verif", port |-> 19092]
 IdOf(n) == IF n = "ta" THEN 1 ELSE IF n = "tb" THEN 2 ELSE 3
@@ -34,13 +38,13 @@ Brokers == <<[node |-> 1, host |-> "broker1", port |-> 9092], [node |-> 2, host 
 PartsOf(n) == [1..n -> [perr : PartErrs, epoch : Epochs, leader : Leaders]]
 MkParts(ps) == [i \in DOMAIN ps |-> [p |-> i - 1, perr |-> ps[i].perr, epoch |-> ps[i].epoch, leader |-> ps[i].leader]]
 
-Init == phase = "build" /\ snap = <<>> /\ input = [kind |-> "none"] /\ hist = <<>>
+Init == phase = "build" /\ snap = <<>> /\ input = [kind |-> "none"] /\ hist = <<>> /\ run = <<>>
 
 AddTopic(n, terr, ps) ==
   /\ phase = "build" /\ Len(snap) < Cardinality(Names) /\ n \notin {snap[i].name : i \in DOMAIN snap}
   /\ terr # 0 => ps = <<>>
   /\ snap' = Append(snap, [name |-> n, id |-> IdOf(n), terr |-> terr, parts |-> MkParts(ps)])
-  /\ UNCHANGED <<phase, input, hist>>
+  /\ UNCHANGED <<phase, input, hist, run>>
 
 OldIdOf(n) == IdOf(n) + 10        \* the id a topic of that name had before it was deleted (and possibly re-created)
 RECURSIVE SetToSeq(_)
@@ -53,12 +57,14 @@ Choose(kind, mode, names, tids, prev) ==
   /\ kind # "metadata" => snap = <<>>          \* these replies do not depend on the cluster metadata
   /\ input' = [kind |-> kind, snap |-> snap, mode |-> mode, names |-> names, ids |-> tids, prev |-> prev]
   /\ hist' = <<input'>>
-  /\ UNCHANGED snap
+  /\ UNCHANGED <<snap, run>>
 
 \* requested names / ids: non-empty sequences without repetition over the cluster's names (ids) plus an unknown one
 RECURSIVE Perms(_)
 Perms(S) == IF S = {} THEN {<<>>} ELSE UNION {{<<x>> \o p : p \in Perms(S \ {x})} : x \in S}
 ReqSeqs(S) == UNION {Perms(T) : T \in (SUBSET S) \ {{}}}
+\* requests that name the same existing-or-not topic twice (a client concatenating topic lists without de-duplicating)
+DupSeqs(S, T) == {<<a, a>> : a \in S} \cup UNION {UNION {{<<a, b, a>>, <<a, a, b>>, <<b, a, a>>} : b \in T \ {a}} : a \in S}
 
 \* one named operator per action so that TLC's coverage reports them by name
 AddAny ==
@@ -71,6 +77,7 @@ ChooseAny ==
   /\ \/ \E kind \in {"metadata", "nr_metadata"} :
           \/ Choose(kind, "all", <<>>, <<>>, <<>>)
           \/ \E ns \in ReqSeqs(Names \cup {UnknownName}) : Choose(kind, "names", ns, <<>>, <<>>)
+          \/ \E ns \in DupSeqs(Names, Names \cup {UnknownName}) : Choose(kind, "names", ns, <<>>, <<>>)
           \/ \E is \in ReqSeqs({IdOf(n) : n \in Names} \cup {UnknownId}) : Choose(kind, "ids", <<>>, is, <<>>)
      \/ \E kind \in {"coordinator", "nr_coordinator"} : Choose(kind, "all", <<>>, <<>>, <<>>)
      \* long-lived proxy, by-id request after its caches were refreshed from `prev`
@@ -78,8 +85,6 @@ ChooseAny ==
         /\ \E is \in ReqSeqs({IdOf(n) : n \in Names} \cup {UnknownId}) : Choose("metadata", "ids", <<>>, is, PrevSame)
      \/ \* every topic was deleted (and those in `snap` re-created under a new id) since the refresh; old and current ids asked
         \E is \in ReqSeqs({OldIdOf(n) : n \in Names} \cup {IdOf(CHOOSE n \in Names : TRUE)}) : Choose("metadata", "ids", <<>>, is, PrevOld)
-Next == AddAny \/ ChooseAny
-Spec == Init /\ [][Next]_vars
 
 \* ---------------- the specification of the functions ----------------
 PP(in) == INSTANCE ProxyMetaProps WITH proxy <- Proxy, inp <- in, reply <- <<>>
@@ -91,6 +96,11 @@ Select(in) ==
   IF in.mode = "ids" /\ DevIdFilterAll THEN PP([in EXCEPT !.mode = "all"])!sel
   ELSE IF in.mode = "ids" /\ DevStaleIdCache /\ AllCached(in)
   THEN PP([in EXCEPT !.mode = "names", !.names = [k \in DOMAIN in.ids |-> CachedName(in, in.ids[k])]])!sel
+  ELSE IF in.mode = "names" /\ DevDupNameLosesSlot
+  THEN [k \in DOMAIN in.names |->
+          IF \E k2 \in DOMAIN in.names : k2 > k /\ in.names[k2] = in.names[k]
+          THEN [name |-> in.names[k], id |-> 0, terr |-> 3, known |-> FALSE, parts |-> <<>>]
+          ELSE PP(in)!sel[k]]
   ELSE PP(in)!sel
 \* the leaders of the selected topics, needed only by the deviation
 LeaderOf(in, name, p) == LET HasName(t) == t.name = name  i == Find(in.snap, HasName) IN
@@ -120,14 +130,59 @@ Reply(in) ==
     [] in.kind = "coordinator"    -> [node |-> Proxy.node, host |-> Proxy.host, port |-> Proxy.port, err |-> 0]
     [] in.kind = "nr_coordinator" -> [node |-> -1, host |-> "", port |-> 0, err |-> 7]
 
-P(in) == INSTANCE ProxyMetaProps WITH proxy <- Proxy, inp <- in, reply <- Reply(in)
-Done == phase = "done"
-C28_OnlyProxyBrokers == Done => P(input)!C28_OnlyProxyBrokers
-C28_OnlyProxyLeaders == Done => P(input)!C28_OnlyProxyLeaders
-C28_OnlyProxyCoordinator == Done => P(input)!C28_OnlyProxyCoordinator
-C28_TopologyKept == Done => P(input)!C28_TopologyKept
+\* ---------------- two overlapping Metadata requests on one proxy ----------------
+\* handleMetadata runs once per client connection; two requests overlap when the second arrives while the first is
+\* still inside store.Metadata.  ReqStart(i): request i enters handleMetadata and reaches the store (or, in the deviation,
+\* joins the in-flight lookup with the same key).  StoreReturn(i): the store call of request i returns, its reply is built
+\* (and, in the deviation, the joined requests get replies built from the SAME ClusterMetadata).
+PairReqs == LET a == IdOf("ta") b == IdOf("tb") IN {<<a>>, <<b>>, <<b, a>>}
+ReqInput(i) == [kind |-> "metadata", snap |-> input.snap, mode |-> "ids", names |-> <<>>, ids |-> input.reqs[i], prev |-> <<>>]
+ChoosePair(r1, r2) ==
+  /\ phase = "build" /\ phase' = "run"
+  /\ input' = [kind |-> "metadata2", snap |-> snap, mode |-> "pair", names |-> <<>>, ids |-> <<>>, prev |-> <<>>,
+                reqs |-> <<r1, r2>>, sched |-> <<>>]
+  /\ run' = [st |-> <<"new", "new">>, lead |-> <<0, 0>>, reply |-> <<<<>>, <<>>>>]
+  /\ UNCHANGED <<snap, hist>>
+ReqStart(i) ==
+  /\ phase = "run" /\ run.st[i] = "new"
+  /\ i = 2 => run.st[1] # "new"        \* request 1 is the one that arrives first (ordered pairs cover the symmetric case)
+  /\ LET J == {j \in 1..2 : run.st[j] = "store"}     \* lookups in flight (all by-id: same key in the deviation)
+     IN IF DevFlightKeyIgnoresIds /\ J # {}
+        THEN run' = [run EXCEPT !.st[i] = "wait", !.lead[i] = CHOOSE j \in J : TRUE]
+        ELSE run' = [run EXCEPT !.st[i] = "store"]
+  /\ input' = [input EXCEPT !.sched = Append(@, <<"S", i>>)]
+  /\ UNCHANGED <<phase, snap, hist>>
+StoreReturn(i) ==
+  /\ phase = "run" /\ run.st[i] = "store"
+  /\ LET rep == MetaReply(ReqInput(i))
+         W == {j \in 1..2 : run.st[j] = "wait" /\ run.lead[j] = i}
+         run2 == [run EXCEPT !.st = [j \in 1..2 |-> IF j = i \/ j \in W THEN "done" ELSE run.st[j]],
+                             !.reply = [j \in 1..2 |-> IF j = i \/ j \in W THEN rep ELSE run.reply[j]]]
+         in2 == [input EXCEPT !.sched = Append(@, <<"R", i>>)]
+     IN /\ run' = run2 /\ input' = in2
+        /\ IF \A j \in 1..2 : run2.st[j] = "done"
+           THEN phase' = "done" /\ hist' = <<in2>>
+           ELSE UNCHANGED <<phase, hist>>
+  /\ UNCHANGED snap
+PairAny ==
+  \/ /\ phase = "build" /\ Len(snap) = Cardinality(Names)
+     /\ \E r1, r2 \in PairReqs : r1 # r2 /\ ChoosePair(r1, r2)
+  \/ /\ phase = "run"
+     /\ \E i \in 1..2 : ReqStart(i) \/ StoreReturn(i)
+Next == AddAny \/ ChooseAny \/ PairAny
+Spec == Init /\ [][Next]_vars
 
-View == <<phase, snap, input>>
+P(in) == INSTANCE ProxyMetaProps WITH proxy <- Proxy, inp <- in, reply <- Reply(in)
+PR(in, rep) == INSTANCE ProxyMetaProps WITH proxy <- Proxy, inp <- in, reply <- rep
+Done == phase = "done"
+IsPair == input.kind = "metadata2"
+\* for a pair: every reply describes exactly what THAT request asked for, whatever the interleaving
+C28_OnlyProxyBrokers == Done => IF IsPair THEN \A i \in 1..2 : PR(ReqInput(i), run.reply[i])!C28_OnlyProxyBrokers ELSE P(input)!C28_OnlyProxyBrokers
+C28_OnlyProxyLeaders == Done => IF IsPair THEN \A i \in 1..2 : PR(ReqInput(i), run.reply[i])!C28_OnlyProxyLeaders ELSE P(input)!C28_OnlyProxyLeaders
+C28_OnlyProxyCoordinator == Done => IF IsPair THEN TRUE ELSE P(input)!C28_OnlyProxyCoordinator
+C28_TopologyKept == Done => IF IsPair THEN \A i \in 1..2 : PR(ReqInput(i), run.reply[i])!C28_TopologyKept ELSE P(input)!C28_TopologyKept
+
+View == <<phase, snap, input, run>>
 \* one line per enumerated input
 EmitSched == Done => PrintT(<<"SCHED", ToJson(hist)>>)
 ====
